@@ -94,6 +94,7 @@ type Kernel struct {
 	Active  string // task label of the action released in the current step
 	Trace   []string
 	Verbose bool
+	Fair    bool // heal phase: always the oldest enabled action (a fair schedule)
 	Sched   *Sched
 	Now     func() time.Time
 	Sleep   func(time.Duration)
@@ -360,6 +361,10 @@ func (k *Kernel) choose(acts []Action) int {
 			eager = append(eager, i)
 		}
 	}
+	if k.Fair {
+		// fair schedule: the oldest enabled action, timers included (acts is sorted by age)
+		return 0
+	}
 	if len(eager) == 0 {
 		return lazy[int(c)%len(lazy)]
 	}
@@ -391,7 +396,7 @@ func (k *Kernel) choose(acts []Action) int {
 		if len(pref) == 0 || c%32 == 31 {
 			pref = eager
 		}
-		return pick(pref, c)
+		return pick(pref, c>>5)
 	default: // fifo with small perturbation
 		if c%8 == 7 {
 			return pick(eager, c>>3)
